@@ -303,7 +303,7 @@ def run(prop, tier, replay=None):
         import implconf
 
         for which, mo, mt, sl in IMPL_MC["quick" if tier == "quick" else "thorough"]:
-            complete &= run_mc_impl(rep, which, mo, mt, sl, timeout=300 if tier == "quick" else 3000)
+            complete &= run_mc_impl(rep, which, mo, mt, sl, timeout=300 if tier == "quick" else 1200)
         rep.cov["exhaustive"] = bool(complete)
         try:
             _, iv = implconf.stage(rep, 200 if tier == "quick" else 3000, seed)
